@@ -7,6 +7,7 @@ from ..contracts import flux as CF, thermo, process as CP
 from ..symex import explore_thunk
 
 ID = "C07"
+FRAME_SENSITIVE = True        # the statement relates several calls / call histories: a certain write to state that outlives a call is a violation even where the engine cannot follow its effect
 MIN_OBLIGATIONS = 80
 TIMEOUT = dict(quick=180, thorough=900)
 Wv = var('w')                                  # a mass fraction; the equivalent mole fraction is XM
@@ -185,6 +186,10 @@ def obligations(cx):
     set_level_measurements(cx, mix, Tt)
     cx.assume_note("fitted coefficients are compared only through their inputs (identical measurement points / identical find_best_fit application), as in the statement")
     cx.assume_note("solver and helper lemmas use get_partial_pressures / calculate_partial_fluxes by contract with their basis lemmas applied by rewriting")
+    from . import procs as _procs
+    _procs.frame_probe(cx)
+    cx.no_hidden_state(function=None)
+
 
 
 def leaves(v, out=None):
